@@ -347,6 +347,61 @@ func worldTunnel(w *World) {
 		}
 		return
 	}
+	// neighbours on the tcpmux port: a proxy of another client on the SAME domain, told apart by the http user, and a
+	// catch-all proxy for the whole zone. The neighbour goes away before or while the users of this world connect;
+	// they name their own domain without credentials and must keep reaching their own backend, never the catch-all's.
+	if mp := tw.firstOf(ptTCPMux); mp != nil && !w.In.Faults && w.KnobBool("tcpmux_neighbours", 50) {
+		w.Probe("tunnel.tcpmux_neighbours")
+		trap, err := w.Net.Listen("tcp", "127.0.0.1:9700")
+		if err != nil {
+			w.Fail("trap listen: %v", err)
+		}
+		w.Backend.Go(func() {
+			for {
+				c, err := trap.Accept()
+				if err != nil {
+					return
+				}
+				tw.violate("wiring", "user-bridged-to-neighbour", "a connection reached the backend of a neighbouring proxy (catch-all or other http user) although every user of this run names the exact domain of its own proxy")
+				c.Close()
+			}
+		})
+		mk := func(node, ip, name, domain, user string) *Frpc {
+			pc := map[string]any{"name": name, "type": "tcpmux", "multiplexer": "httpconnect", "localIP": "127.0.0.1", "localPort": 9700,
+				"customDomains": []string{domain}}
+			if user != "" {
+				pc["routeByHTTPUser"] = user
+			}
+			ctr3 := map[string]any{}
+			for k, v := range ctr {
+				ctr3[k] = v
+			}
+			ctr3["connectServerLocalIP"] = ip
+			ctr3["poolCount"] = 0
+			f, err := w.StartFrpc(w.Net.NewNode(node, ip), map[string]any{
+				"serverAddr": "10.0.0.1", "serverPort": srvPort, "loginFailExit": false,
+				"auth": map[string]any{"token": tw.token}, "transport": ctr3, "proxies": []map[string]any{pc}})
+			if err != nil {
+				w.Fail("start neighbour frpc: %v", err)
+			}
+			return f
+		}
+		mk("frpc3", "10.0.1.3", "catchall", "*.example.test", "")
+		sib := mk("frpc4", "10.0.1.4", "sibling", mp.domain, "bob")
+		if !w.WaitUntil(60*time.Second, 100*time.Millisecond, func() bool {
+			return w.FrpLogContains("[catchall] start proxy success") && w.FrpLogContains("[sibling] start proxy success")
+		}) {
+			tw.violate("startup", "neighbour-not-up", "neighbouring tcpmux proxies (catch-all, same domain with another http user) not registered 60 s after start")
+			return
+		}
+		leave := time.Duration(w.KnobPick("neighbour_leaves_ms", 0, 0, 300, 2000)) * time.Millisecond
+		if leave == 0 {
+			sib.Stop()
+			w.Sleep(2 * time.Second)
+		} else {
+			w.UserN.Go(func() { w.Sleep(leave); sib.Stop() })
+		}
+	}
 	w.Sleep(time.Duration(r.Range(0, 1500)) * time.Millisecond)
 	if deadBackend && w.WaitUntil(30*time.Second, 100*time.Millisecond, func() bool { return tw.listening("10.0.0.1:20090") && w.FrpLogContains("[pxdead] start proxy success") }) {
 		w.Probe("tunnel.users_of_dead_backend")
@@ -580,6 +635,15 @@ func (tw *tunnelWorld) endpointUp(p *tProxy) bool {
 	default:
 		return tw.w.FrpLogContains("[" + p.name + "] start proxy success")
 	}
+}
+
+func (tw *tunnelWorld) firstOf(typ int) *tProxy {
+	for _, p := range tw.proxies {
+		if p.typ == typ {
+			return p
+		}
+	}
+	return nil
 }
 
 func (tw *tunnelWorld) listening(addr string) bool {
